@@ -7,7 +7,7 @@ from ..provider.essential import CannotProvide, Mediator
 from ..provider.loc_stack_filtering import ExactOriginLSC
 from ..provider.located_request import LocatedRequestMethodsProvider
 from ..provider.methods_provider import method_handler
-from ..type_tools import normalize_type
+from ..type_tools import get_generic_args, is_generic, normalize_type
 from .json_schema.definitions import JSONSchema
 from .json_schema.request_cls import JSONSchemaRequest
 from .json_schema.schema_model import JSONSchemaDialect
@@ -60,13 +60,19 @@ class ABCProxy(LoaderProvider, DumperProvider):
         self._for_loader = for_loader
         self._for_dumper = for_dumper
 
+    def _get_impl_type(self, tp: TypeHint) -> TypeHint:
+        args = get_generic_args(tp)
+        if args and is_generic(self._impl):
+            return self._impl[args]
+        return self._impl
+
     def provide_loader(self, mediator: Mediator, request: LoaderRequest) -> Loader:
         if not self._for_loader:
             raise CannotProvide
 
         return mediator.mandatory_provide(
             LoaderRequest(
-                loc_stack=request.loc_stack.replace_last_type(self._impl),
+                loc_stack=request.loc_stack.replace_last_type(self._get_impl_type(request.last_loc.type)),
             ),
             lambda x: f"Cannot create loader for union. Loader for {self._impl} cannot be created",
         )
@@ -77,7 +83,7 @@ class ABCProxy(LoaderProvider, DumperProvider):
 
         return mediator.mandatory_provide(
             DumperRequest(
-                loc_stack=request.loc_stack.replace_last_type(self._impl),
+                loc_stack=request.loc_stack.replace_last_type(self._get_impl_type(request.last_loc.type)),
             ),
             lambda x: f"Cannot create dumper for union. Dumper for {self._impl} cannot be created",
         )
